@@ -157,3 +157,81 @@ Fixpoint spec_ok_from (q : option N) (h l : list vote) (obs : list (out * option
   end.
 Definition spec_ok (q : option N) (l : list vote) (obs : list (out * option state)) : bool :=
   spec_ok_from q [] l obs.
+
+(* ================= Prop-level statements (used by props/C06.v) ================= *)
+
+(* at most one value has reached the quorum *)
+Definition no_two (q : option N) (h : list vote) : Prop :=
+  forall p p', reaches q (spec_tally h p) = true -> reaches q (spec_tally h p') = true -> p = p'.
+
+Definition quorums_intersect (q : option N) (h : list vote) : Prop :=
+  reaches q (spec_eqw h) = false /\ no_two q h.
+
+Definition bundle_valid (q : option N) (h : list vote) (p : N) (b : bundle) : Prop :=
+  b_value b = p /\ b_votes b <> [] /\ NoDup (bundle_members b) /\
+  (forall s, In s (b_votes b) -> exists v, status_of h s = SVoted v /\ v_value v = p) /\
+  (forall s p0 p1, In (s, p0, p1) (b_eqs b) ->
+     exists v1 v2, status_of h s = SEquiv v1 v2 /\ v_value v1 = p0 /\ v_value v2 = p1 /\ p0 <> p1) /\
+  reaches q (bundle_weight h b) = true.
+
+(* ---------- the invariant tying the tracker state to the history ---------- *)
+Record Inv (h : list vote) (st : state) : Prop := mkInv {
+  inv_voters : forall s, alookup s (voters st) = spec_voter h s;
+  inv_equivs : forall s, alookup s (equivocators st) = spec_equiv h s;
+  inv_cnt : forall p, c_count (counter_of st p) = spec_cnt h p;
+  inv_votes : forall p s, alookup s (c_votes (counter_of st p)) = spec_voter_for h p s;
+  inv_entry : forall p, alookup p (counts st) = None <-> spec_cnt h p = 0;
+  inv_eqc : eqcount st = spec_eqw h;
+  inv_nd_voters : NoDup (keys (voters st));
+  inv_nd_counts : NoDup (keys (counts st));
+  inv_nd_equivs : NoDup (keys (equivocators st));
+  inv_nd_votes : forall p, NoDup (keys (c_votes (counter_of st p)))
+}.
+
+Record tracker_wf (st : state) : Prop := mkTrackerWf {
+  twf_nd : NoDup (keys (voters st)) /\ NoDup (keys (counts st)) /\ NoDup (keys (equivocators st));
+  (* Voters and Equivocators are disjoint *)
+  twf_disjoint : forall s, alookup s (voters st) <> None -> alookup s (equivocators st) = None;
+  (* Counts[p] holds exactly the recorded voters whose value is p, and is never empty *)
+  twf_votes : forall p c, alookup p (counts st) = Some c ->
+      c_votes c <> [] /\ NoDup (keys (c_votes c)) /\
+      forall s v, alookup s (c_votes c) = Some v <-> (alookup s (voters st) = Some v /\ v_value v = p);
+  twf_voter_counted : forall s v, alookup s (voters st) = Some v -> alookup (v_value v) (counts st) <> None;
+  (* Count is the weight of those votes; EquivocatorsCount the weight of the equivocators *)
+  twf_count : forall p c, alookup p (counts st) = Some c -> c_count c = sumN (map (fun e => v_weight (snd e)) (c_votes c));
+  twf_eqcount : eqcount st = sumN (map (fun e => e_weight (snd e)) (equivocators st));
+  twf_keys : (forall s v, alookup s (voters st) = Some v -> v_sender v = s) /\
+             (forall s e, alookup s (equivocators st) = Some e -> e_sender e = s /\ e_p0 e <> e_p1 e)
+}.
+
+Definition is_panic (o : out) : bool := match o with OPanic _ => true | _ => false end.
+
+(* what one observed reaction must satisfy w.r.t. the raw history *)
+Definition step_obs (q : option N) (h : list vote) (x : vote) (o : out) : Prop :=
+  let h' := h ++ [x] in
+  match o with
+  | OPanic t =>
+      (t = "eq"%string /\ reaches q (spec_eqw h') = true) \/
+      (t = "two"%string /\ reaches q (spec_eqw h') = false /\
+       exists p p', p <> p' /\ reaches q (spec_tally h' p) = true /\ reaches q (spec_tally h' p') = true)
+  | ONone =>
+      reaches q (spec_eqw h') = false /\ no_two q h' /\
+      ((forall p, reaches q (spec_tally h' p) = false) \/ (exists p, reaches q (spec_tally h p) = true))
+  | OThreshold p b =>
+      reaches q (spec_eqw h') = false /\ no_two q h' /\ reaches q (spec_tally h' p) = true /\
+      (forall p', reaches q (spec_tally h p') = false) /\ bundle_valid q h' p b
+  end.
+
+Definition snap_rel (h' : list vote) (o : out) (snap : option state) : Prop :=
+  match snap with
+  | Some st => is_panic o = false /\ Inv h' st
+  | None => is_panic o = true
+  end.
+
+(* an observation trace for the votes l received after history h0 *)
+Definition trace_ok (q : option N) (h0 l : list vote) (obs : list (out * option state)) : Prop :=
+  (forall i o snap, nth_error obs i = Some (o, snap) ->
+     exists x, nth_error l i = Some x /\ step_obs q (h0 ++ firstn i l) x o /\
+               snap_rel (h0 ++ firstn i l ++ [x]) o snap) /\
+  (forall i o snap, nth_error obs i = Some (o, snap) -> is_panic o = true -> S i = List.length obs) /\
+  ((forall o, In o (map fst obs) -> is_panic o = false) -> List.length obs = List.length l).
